@@ -63,7 +63,8 @@ def gen_comment(rng):
     if rng.random() < 0.5:
         t = rng.choice(["c", "a comment", "x; y", "{ brace", "say 'hi'", '"q"', "$var", "https://example.com/x", "k v;", "( 1 2 )", "é ж", "back\\slash", "\\1", "", " "])
         return {"i": "lineC", "text": "//" + t}
-    t = rng.choice([" c ", "a; b", " { } ", "*", " 'q' ", ' "d" ', " $x ", "\n multi\n line \n", " see http://x.y ", "", " C++ ", "**"])
+    t = rng.choice([" c ", "a; b", " { } ", "*", " 'q' ", ' "d" ', " $x ", "\n multi\n line \n", " see http://x.y ", "", " C++ ", "**",
+                    " don't touch ", ' 5" pipe ', " it's ", " a 'b ", ' say "hi '])
     return {"i": "blockC", "text": "/*" + t + "*/"}
 
 
